@@ -104,10 +104,10 @@ fn compatible(a: &str, b: &str) -> bool {
     let member_level = |c: &str| {
         matches!(
             c,
-            "unknown-dedicated-field" | "unknown-dedicated-variant" | "unknown-dedicated-variant-field" | "misnamed-on-member" | "struct-instr-on-member" | "unknown-instr-member" | "unsupported-on-field" | "parent-on-variant" | "ghost-without-default" | "child-without-child-parents" | "tuple-member-without-name" | "tuple-variant-member-without-name" | "untyped-nested-parent" | "unnamed-parent-child" | "permeate-on-struct-field" | "unknown-member-repeat-category" | "member-repeat-unterminated"
+            "unknown-dedicated-field" | "unknown-dedicated-variant" | "unknown-dedicated-variant-field" | "misnamed-on-member" | "struct-instr-on-member" | "unknown-instr-member" | "unsupported-on-field" | "parent-on-variant" | "ghost-without-default" | "child-without-child-parents" | "tuple-member-without-name" | "tuple-child-parents-member-without-name" | "tuple-variant-member-without-name" | "untyped-nested-parent" | "unnamed-parent-child" | "permeate-on-struct-field" | "unknown-member-repeat-category" | "member-repeat-unterminated"
         ) || c.starts_with("duplicate-member-")
     };
-    let exclusive = |c: &str| matches!(c, "tuple-member-without-name" | "tuple-variant-member-without-name" | "permeate-on-struct-field" | "member-repeat-unterminated");
+    let exclusive = |c: &str| matches!(c, "tuple-member-without-name" | "tuple-child-parents-member-without-name" | "tuple-variant-member-without-name" | "permeate-on-struct-field" | "member-repeat-unterminated");
     if cp_group(a) && cp_group(b) {
         return false;
     }
@@ -454,6 +454,20 @@ pub fn inject(t: &mut Tape, item: &mut Item, class: usize) -> Option<Expected> {
         }
         17 => {
             // 10: tuple struct / tuple variant facing `as {}` with a member lacking a name
+            // the same rule inside a nested struct: a tuple struct's #[child(zc.0)] member without a name while #[child_parents]
+            // says that 'zc.0' is a struct-form type (and 'zc' a tuple-form one: the form of the innermost struct counts)
+            let has_child_parents = item.attrs.iter().flat_map(|a| a.instrs()).any(|i| matches!(i, Instr::ChildParents { .. }));
+            let into_like = cps.iter().any(|c| (c.has_into() || c.has_into_existing()) && !cell_all_ret(c));
+            if matches!(item.body, Body::Struct(Shape::Tuple, _)) && !has_child_parents && into_like && t.coin() {
+                let (cp_attr, _) = spell_one(t, Instr::ChildParents { ded: None, entries: vec![("zc".into(), "Zt".into(), Some(Hint::Tuple)), ("zc . 0".into(), "Zu".into(), Some(Hint::Struct))] });
+                item.attrs.push(cp_attr);
+                if let Body::Struct(_, fields) = &mut item.body {
+                    let (a, _) = spell_one(t, Instr::Child { ded: None, path: "zc . 0".into() });
+                    fields.push(FieldDef { attrs: vec![a], name: None, ty: "i32".into() });
+                    let fi = fields.len() - 1;
+                    return Some(Expected { class: "tuple-child-parents-member-without-name".into(), messages: vec![format!("Member {} should have member trait instruction with field name", fi)], parse_stage: false });
+                }
+            }
             match &mut item.body {
                 Body::Struct(Shape::Tuple, fields) => {
                     let cp = cps.iter().find(|c| c.hint == Some(Hint::Struct) && !cell_all_ret(c))?;
@@ -530,7 +544,10 @@ pub fn inject(t: &mut Tape, item: &mut Item, class: usize) -> Option<Expected> {
             let tr = t.pick(&trs).clone();
             let fall = tr.fallible();
             let mk = |ty: &str, params: Vec<TParam>| Instr::Trait(TraitInstr { name: tr.name.clone(), ty: ty.into(), hint: None, err: if fall { Some("E".into()) } else { None }, params });
-            let (instrs, msg): (Vec<Instr>, &str) = match t.below(7) {
+            let (instrs, msg): (Vec<Instr>, &str) = match t.below(9) {
+                // the repeating instruction leaves the parameter unset; a follower that sets it without skip_repeat would lose it
+                7 => (vec![mk("Zr1", vec![TParam::Repeat(vec![]), TParam::Vars(vec![("zv".into(), "1".into())])]), mk("Zr2", vec![TParam::Update("upd()".into())])], "Update statement will be overriden. Did you forget to use 'skip_repeat'?"),
+                8 => (vec![mk("Zr1", vec![TParam::Repeat(vec![]), TParam::Return("make(@)".into())]), mk("Zr2", vec![TParam::Vars(vec![("zw".into(), "2".into())])])], "Vars will be overriden. Did you forget to use 'skip_repeat'?"),
                 0 => (vec![mk("Zr1", vec![TParam::Repeat(vec![]), TParam::Vars(vec![("zv".into(), "1".into())])]), mk("Zr2", vec![TParam::Repeat(vec![]), TParam::Vars(vec![("zw".into(), "2".into())])])], "Previous repeat() instruction must be terminated with 'stop_repeat'"),
                 1 => (vec![mk("Zr1", vec![TParam::Repeat(vec!["vars".into()]), TParam::Vars(vec![("zv".into(), "1".into())])]), mk("Zr2", vec![TParam::Vars(vec![("zw".into(), "2".into())])])], "Vars will be overriden. Did you forget to use 'skip_repeat'?"),
                 2 => (vec![mk("Zr1", vec![TParam::Vars(vec![("zv".into(), "1".into())]), TParam::Vars(vec![("zw".into(), "2".into())])])], "Instruction parameter 'vars' was already set."),
